@@ -195,6 +195,23 @@ def task_options(arg):
                 out.violation(f"debug-drops-input-columns:{lab}", {**case0, "missing": missing_inputs[:5]}, str(missing_inputs[:5]))
         except Exception as e:  # noqa: BLE001
             out.violation(f"option-raises:{lab}:{type(e).__name__}", case0, repr(e)[:300])
+    # debug x index labels: row i of the result belongs to row i of the input whatever the index says
+    idx_variants = {
+        "permuted-ints": [(i * 3 + 1) % n if n % 3 else (n - 1 - i) for i in range(n)],
+        "disjoint-ints": [100 + 7 * i for i in range(n)],
+        "strings": [f"row-{chr(97 + (n - i) % 26)}{i}" for i in range(n)],
+    }
+    for lab, idx in idx_variants.items():
+        for dbg in (True, False):
+            d2 = df.copy()
+            d2.index = pd.Index(idx)
+            try:
+                r = run_api(d2, date_iso, None, debug=dbg)
+                cmp(f"index-{lab}-debug-{dbg}", r, base, list(DEFAULT_TARGETS))
+                if dbg and "p_id" in r.columns and r["p_id"].tolist() != df["p_id"].tolist():
+                    out.violation(f"output-order:index-{lab}-debug-{dbg}", case0, f"p_id column of the debug output {r['p_id'].tolist()[:6]} vs input {df['p_id'].tolist()[:6]}")
+            except Exception as e:  # noqa: BLE001
+                out.violation(f"option-raises:index-{lab}-debug-{dbg}:{type(e).__name__}", case0, repr(e)[:300])
     # check_minimal_specification
     try:
         r = run_api(df, date_iso, None, check_minimal_specification="warn")
